@@ -79,12 +79,22 @@ class Ctx(ChainContext):
         return list(self._by_addr.get(address, []))
 
 
+SHARE = [False]      # per case: policies of one bundle whose literals are equal hold THE SAME Asset object (what
+                     # `a = Asset({..}); MultiAsset({p1: a, p2: a})` builds)
+
+
 def mk_ma(lit):
     ma = MultiAsset()
+    seen = {}
     for p, names in lit:
-        a = Asset()
-        for n, q in names:
-            a[AssetName(bytes.fromhex(n))] = q
+        key = json.dumps(names)
+        if SHARE[0] and key in seen:
+            a = seen[key]
+        else:
+            a = Asset()
+            for n, q in names:
+                a[AssetName(bytes.fromhex(n))] = q
+            seen[key] = a
         ma[ScriptHash(bytes.fromhex(p))] = a
     return ma
 
@@ -288,6 +298,7 @@ def snapshot(utxos):
 
 
 def run_e2e(case):
+    SHARE[0] = bool(case.get('share'))
     ctx, b, utxos = prepare(case)
     before = snapshot(utxos)
     out = {}
